@@ -151,8 +151,12 @@ func runStage(c caseT) obsT {
 
 // ---- end to end ---------------------------------------------------------------------
 
+// odd reports whether the item's value is odd: the include predicate of the "e2e-inc" mode
+// (C08: a lossy, include-filtered Pull still folds to the filtered collection).
+func odd(_ string, m proto.Message) bool { return m != nil && val(m)%2 == 1 }
+
 func runE2E(c caseT) obsT {
-	o := obsT{N: c.N, Kind: c.Kind, Mode: "e2e", Steps: c.Steps, Truth: c.Truth, Got: []chg{}, WriteMs: []int{}}
+	o := obsT{N: c.N, Kind: c.Kind, Mode: c.Mode, Steps: c.Steps, Truth: c.Truth, Got: []chg{}, WriteMs: []int{}}
 	ctx, cancel := context.WithCancel(context.Background())
 	defer cancel()
 	timed := func(f func() error) bool {
@@ -217,7 +221,15 @@ func runE2E(c caseT) obsT {
 		return o
 	}
 	col := resource.NewCollection()
-	ch := col.Pull(ctx, resource.WithBackpressure(false), resource.WithUpdatesOnly(true))
+	ro := []resource.ReadOption{resource.WithBackpressure(false), resource.WithUpdatesOnly(true)}
+	if c.Mode == "e2e-inc" {
+		ro = append(ro, resource.WithInclude(odd))
+	}
+	ch := col.Pull(ctx, ro...)
+	outWait := 5 * time.Second
+	if c.Mode == "e2e-inc" {
+		outWait = 2 * time.Millisecond // the pending change may be one the predicate excludes: nothing to receive then
+	}
 	recv := func(d time.Duration) (chg, bool) {
 		select {
 		case e, ok := <-ch:
@@ -246,7 +258,7 @@ func runE2E(c caseT) obsT {
 			if !timed(f) {
 				return o
 			}
-		} else if e, ok := recv(5 * time.Second); ok {
+		} else if e, ok := recv(outWait); ok {
 			o.Got = append(o.Got, e)
 		}
 	}
@@ -365,12 +377,16 @@ func main() {
 	cases := hx.ReadCases[caseT](hx.Arg("-cases", "cases.ndjson"))
 	out := hx.NewOut(hx.Arg("-out", "obs.ndjson"))
 	defer out.Close()
+	bad := 0
 	for _, c := range cases {
+		if bad >= 25 {
+			break // judged on the first failing runs: every further one costs seconds of timeouts
+		}
 		hx.Current(c)
 		var o obsT
 		p := hx.Catch(func() {
 			switch c.Mode {
-			case "e2e":
+			case "e2e", "e2e-inc":
 				o = runE2E(c)
 			case "blocking":
 				o = runBlocking(c)
@@ -388,6 +404,19 @@ func main() {
 		}
 		if o.Truth == nil {
 			o.Truth = []int{}
+		}
+		if o.Problem != "" || o.Panic != "" || !o.Closed && o.Mode == "stage" {
+			bad++
+		}
+		for _, ms := range o.WriteMs {
+			if ms < 0 {
+				bad++
+			}
+		}
+		for _, g := range o.Got {
+			if g.Type == "PRODUCER-BLOCKED" || g.Type == "NOTHING-TO-RECEIVE" {
+				bad++
+			}
 		}
 		out.Write(o)
 	}
